@@ -986,3 +986,71 @@ pub fn trap_clusters_with(rng: &mut Rng, n: usize, lim: [u8; 6]) -> Vec<(B, bool
     }
     out
 }
+
+/// Edge clusters (fourth round): little battles on the a- and h-files in which a raw (unmasked) horizontal
+/// shift would see a phantom neighbour across the board edge.  For every edge square `e`, an enemy victim
+/// next to it, a free friendly pusher next to the victim, a friendly candidate ON the edge square that is
+/// frozen by a stronger enemy (or not), and a friendly "phantom supporter" on the wrap square (h(r+1) for
+/// a(r), a(r-1) for h(r)).  Walked as turn trees, so every pending push and every pull out of them is seen.
+pub fn edge_clusters(rng: &mut Rng) -> Vec<(B, bool)> {
+    let mut out = vec![];
+    for r in 1..7usize {
+        for &f in &[0usize, 7] {
+            let e = r * 8 + f;
+            let wrap = if f == 0 { e - 1 } else { e + 1 };
+            let inward = if f == 0 { e + 1 } else { e - 1 };
+            for gold in [true, false] {
+                for &(victim_at, freezer_at) in &[(inward, e - 8), (inward, e + 8), (e - 8, e + 8), (e + 8, e - 8), (e - 8, inward), (e + 8, inward)] {
+                    for variant in 0..4 {
+                        let mut b: B = [None; 64];
+                        // candidate on the edge square, stronger than the victim
+                        b[e] = Some((gold, 3));
+                        b[victim_at] = Some((!gold, 1));
+                        if variant != 1 {
+                            b[freezer_at] = Some((!gold, 5)); // freezes the candidate
+                        }
+                        if variant != 2 {
+                            b[wrap] = Some((gold, if variant == 3 { 0 } else { 2 })); // phantom supporter
+                        }
+                        // a genuinely free pusher next to the victim (not the candidate's square)
+                        let mut placed = false;
+                        for d in 0..4 {
+                            if let Some(k) = nb(victim_at, d) {
+                                if b[k].is_none() && k != e && !TRAPS.contains(&k) && (0..4).all(|d2| nb(k, d2).map_or(true, |n| b[n].map_or(true, |(g, st)| g == gold || st <= 4))) {
+                                    b[k] = Some((gold, 4));
+                                    placed = true;
+                                    break;
+                                }
+                            }
+                        }
+                        if !placed {
+                            continue;
+                        }
+                        for g in [true, false] {
+                            if !b.iter().any(|c| *c == Some((g, 0))) {
+                                for _ in 0..30 {
+                                    let k = 16 + rng.below(32);
+                                    if b[k].is_none() && !TRAPS.contains(&k) && (0..4).all(|d2| nb(k, d2).map_or(true, |n| b[n].is_none())) {
+                                        b[k] = Some((g, 0));
+                                        break;
+                                    }
+                                }
+                            }
+                        }
+                        let s0 = b;
+                        for t in TRAPS {
+                            if let Some((g, _)) = s0[t] {
+                                if !friend(&s0, t, g) {
+                                    b[t] = None;
+                                }
+                            }
+                        }
+                        out.push((b, gold));
+                    }
+                }
+            }
+        }
+    }
+    out
+}
+
